@@ -43,7 +43,7 @@ TInit == /\ Rec[1].k = "reset"
 \* instruction is enabled in the spec state (not loom's notion of runnable) and is not a voluntary
 \* yield (yield_now, a spin-loop round, Notify::wait whose spurious return is a yield, Condvar::wait
 \* which blocks inside).  This op-level count can only be smaller than loom's branch-level count.
-Voluntary(u) == Code(u)[pc[u]].op \in {"yield", "await", "nwait", "cvwait", "blockon", "lzget", "wake"}
+Voluntary(u) == Code(u)[pc[u]].op \in {"yield", "await", "nwait", "cvwait", "blockon", "lzget", "wake", "wakeslot", "wakeref"}
 Preempted(u, t) == u # 0 /\ u # t /\ CanStep(u) /\ ~Voluntary(u)
 
 \* a recorded instruction: the spec step of that thread must be enabled, must complete the
@@ -67,7 +67,7 @@ TOp == /\ l <= Len(Rec) /\ phase = "run" /\ Ev.k = "op"
 \* unlogged inner step of a multi-step operation (Condvar::wait enqueue + unlock)
 TSilent == /\ l <= Len(Rec) /\ phase = "run"
            /\ \E t \in Threads : /\ Live(t)
-                                 /\ Code(t)[pc[t]].op \in {"cvwait", "lzget", "blockon", "wake"}
+                                 /\ Code(t)[pc[t]].op \in {"cvwait", "lzget", "blockon", "wake", "wakeslot", "wakeref"}
                                  /\ Step(t) /\ pc'[t] = pc[t] /\ end' = "run"
            /\ UNCHANGED <<l, phase, lastT, pre, pb>>
 
